@@ -7,7 +7,7 @@ THEOREMS = core.pinned('C08')
 def explore(ck):
     r = ck.rng; quick = ck.tier == 'quick'
     ck.rule = ('the C07 histories with few distinct addresses (many outputs per address, P2PK and P2PKH of one key, spend-and-refund, zero values) x ranges x coins; compared: balances rows vs model, '
-               'and the per-address aggregation of the real unspentcsvdump run vs the real balances run. plus one history with > 65 536 unspent outputs over 7 addresses (expectation computed by the harness from the generated history; model run on it in the thorough tier). Non-trivial: >= 1 address with >= 2 unspent outputs; distinct by history.')
+               'and the per-address aggregation of the real unspentcsvdump run vs the real balances run. plus one history with 3000 (thorough: 100 000, a balances file beyond the 4 MB buffer of the writer) funded addresses, a tenth emptied and a tenth funded twice, and one history with > 65 536 unspent outputs over 7 addresses (expectation computed by the harness from the generated history; model run on it in the thorough tier). Non-trivial: >= 1 address with >= 2 unspent outputs; distinct by history.')
     cases = c07.make_cases(ck, 30 if quick else 250, few=True)
     def nontrivial(c, m):
         from collections import Counter
@@ -38,6 +38,49 @@ def explore(ck):
             pass
 
     big_history(ck)
+    many_addresses(ck, 3000 if ck.tier == 'quick' else 100000)
+
+def many_addresses(ck, n):
+    """n funded addresses (quick 3000: a balances file of more than 128 KiB; thorough 100 000: more than the 4 MB the writer buffers), a tenth of them emptied again, a tenth funded twice.
+    Expectation computed by the harness from the generated history (python address codec); the unspentcsvdump run is aggregated as a cross-check."""
+    r = ck.rng; coin = gen.ALL_COINS[(ck.seed + 3) % 8]
+    from .. import scripts
+    keys = [gen.rb(r, 20) for _ in range(n)]; blocks = []; prev = b'\x00' * 32; expect = {}; created = []
+    per = 1000
+    for h in range((n + per - 1) // per + 1):
+        txs = [coinbase_tx(h, [(50 * 10**8, b'\x6a\x01x')], extra=gen.rb(r, 2))]
+        chunk = keys[h * per:(h + 1) * per]
+        if chunk:
+            outs = [(1000 + i, P2PKH(k)) for i, k in enumerate(chunk)]; t = Tx([(gen.rb(r, 32), 0, b'', 0)], outs); txs.append(t)
+            for i, k in enumerate(chunk): expect[k] = expect.get(k, 0) + 1000 + i; created.append((t.txid, i, k, 1000 + i))
+        if h >= 1:
+            # a tenth of the outputs created one block earlier are spent again; the value goes to addresses that already own something (funded twice)
+            prevs = [x for j, x in enumerate(created[(h - 1) * per:h * per]) if j % 10 == 3]
+            if prevs:
+                ins = [(tid, i, b'', 0) for tid, i, k, v in prevs]; back = [x for j, x in enumerate(created[(h - 1) * per:h * per]) if j % 10 == 7][:len(prevs)]
+                outs = [(v, P2PKH(k2)) for (_, _, _, v), (_, _, k2, _) in zip(prevs, back)]
+                if outs:
+                    txs.append(Tx(ins, outs))
+                    for tid, i, k, v in prevs: expect[k] -= v
+                    for (_, _, _, v), (_, _, k2, _) in zip(prevs, back): expect[k2] += v
+        b = Block(prev, txs, time=1300000000 + h); blocks.append(b); prev = b.hash
+    c = Case('many08', coin).simple_layout(blocks); c.meta['fixed'] = True
+    rel = ck.tier != 'quick' and bool(getattr(ck.tools, 'bin_release', None))      # (the debug build spends ~8 ms per address on Base58: the 100 000-address history runs on the release build)
+    rb = run.run_impl(ck.tools, c, 'balances', timeout=900, release=rel); ru = run.run_impl(ck.tools, c, 'unspent', timeout=900, release=rel)
+    ck.evaluated(); ck.count('history with %d funded addresses (harness-side expectation)' % n); ck.nontrivial(('many', n))
+    bad = []
+    if rb.rc != 0 or ru.rc != 0: bad.append('exit status balances=%s unspent=%s' % (rb.rc, ru.rc))
+    else:
+        ba = [x for x in next(iter(rb.files.values())).decode().split('\n')[1:] if x]; un = [x for x in next(iter(ru.files.values())).decode().split('\n')[1:] if x]
+        want = sorted('%s;%d' % (scripts.ref(P2PKH(k), coin)[1], v) for k, v in expect.items() if v > 0)
+        if sorted(ba) != want:
+            sb, sw = set(ba), set(want)
+            bad.append('balances rows differ from the sums of the generated history: %d rows, %d expected; missing %s; unexpected %s' % (len(ba), len(want), sorted(sw - sb)[:3], sorted(sb - sw)[:3]))
+        agg = {}
+        for l in un: f = l.split(';'); agg[f[4]] = agg.get(f[4], 0) + int(f[3])
+        if sorted('%s;%d' % kv for kv in agg.items()) != sorted(ba): bad.append('balances run differs from the aggregation of the unspentcsvdump run')
+        if len(set(x.split(';')[0] for x in ba)) != len(ba): bad.append('an address is listed twice')
+    if bad: ck.disagreement('balances over %d funded addresses (%s)' % (n, coin), '\n'.join(bad), c, in_domain=True)
 
 def big_history(ck):
     """More than 65 536 unspent outputs spread over 7 addresses (10 000 outputs per address and more, in many transactions). The extracted model needs minutes for a history of this size
